@@ -452,3 +452,50 @@ pub fn gen_stream(rng: &mut Rng, cfg: ProdCfg) -> Stream {
         insts,
     }
 }
+
+/// Hot spot for the disassembler's extended-instruction naming: an import of a known set and an
+/// OpExtInst inside a block that names it with a boundary instruction number.
+pub fn plant_ext_inst(rng: &mut Rng, stream: &mut Stream) {
+    let s = snap();
+    let set_id = stream.header.bound + 1;
+    let name = *rng.pick(&["GLSL.std.450", "GLSL.std.450", "OpenCL.std", "OpenCL.std", "NonSemantic.DebugPrintf", "GLSL.std.451"]);
+    let number = match rng.below(8) {
+        0 => 0,
+        1 => 1,
+        2 => 81,
+        3 => 82,
+        4 => u32::MAX,
+        5 => rng.below(210) as u32,
+        6 => 0x8000_0000,
+        _ => rng.below(100) as u32,
+    };
+    let import = MInst {
+        opcode: s.op("ExtInstImport"),
+        rtype: None,
+        rid: Some(set_id),
+        ops: vec![MOp::S(name.to_string())],
+    };
+    let mut ops = vec![MOp::W(s.k_idref, if rng.chance(7, 8) { set_id } else { set_id + 7 }), MOp::W(s.k_extinst, number)];
+    for _ in 0..rng.below(4) {
+        ops.push(MOp::W(s.k_idref, rng.below(20) as u32));
+    }
+    let ext = MInst {
+        opcode: s.op("ExtInst"),
+        rtype: Some(rng.range(1, 20) as u32),
+        rid: Some(set_id + 2),
+        ops,
+    };
+    // import goes to the front (module level); the ext inst right after the first label, or into a new function
+    stream.insts.insert(0, import);
+    match stream.insts.iter().position(|i| i.is("Label")) {
+        Some(k) => stream.insts.insert(k + 1, ext),
+        None => {
+            stream.insts.push(MInst { opcode: s.op("Function"), rtype: Some(1), rid: Some(set_id + 3), ops: vec![MOp::W(s.kind("FunctionControl"), 0), MOp::W(s.k_idref, 2)] });
+            stream.insts.push(MInst { opcode: s.op("Label"), rtype: None, rid: Some(set_id + 4), ops: vec![] });
+            stream.insts.push(ext);
+            stream.insts.push(MInst { opcode: s.op("Return"), rtype: None, rid: None, ops: vec![] });
+            stream.insts.push(MInst { opcode: s.op("FunctionEnd"), rtype: None, rid: None, ops: vec![] });
+        }
+    }
+    stream.header.bound += 10;
+}
